@@ -32,8 +32,11 @@ def gen_history(rng):
     n = rng.randint(10, 30)
     tables = [[('mit', [], False), ('GPL 2.0', ['GNU GPL v2'], False), ('classpath', [], True)],
               [('mit', ['x mit'], True)], [], [('a', [], False), ('A', [], False)],
+              # the same names with other exception flags: instances must not influence one another
+              [('mit', [], True), ('GPL 2.0', ['GNU GPL v2'], False), ('classpath', [], False)],
+              [('mit', [], False), ('GPL 2.0', ['GNU GPL v2'], True), ('classpath', [], True)],
               [('gpl 2.0', [], False), ('gpl', ['gpl 2.0'], False)]]
-    ops.append(('new', rng.choice(tables[:3])))
+    ops.append(('new', rng.choice(tables[:1] + tables[5:7])))
     ninst = 1
     for _ in range(n):
         r = rng.random()
@@ -184,14 +187,88 @@ def run(rep, tier, seed):
                                    'raw': repr(small), 'what': err, 'text': repr(small)[:300]})
             continue
         rep.compared += len(obs)
+        if (r[0] != obs or r[1] != exprs):
+            rep.suspects = getattr(rep, 'suspects', []) + [h]
         if (r[0] != obs or r[1] != exprs) and len(rep.broken) < 5:
             diff = [(i, a, b) for i, (a, b) in enumerate(zip(r[0], obs)) if a != b][:2]
             rep.broken.append('correspondence C19: history %r: first differences (index, model, implementation) %r'
                               % ([repr(o)[:50] for o in h], diff))
 
 
+PRISTINE = r"""
+import json, sys
+sys.path.insert(0, %r)
+from core import make_licensing, outcome_of, enc_expr
+T, va, st, si, s = json.loads(sys.argv[1])
+L = make_licensing([(k, a, e) for k, a, e in T])
+got = outcome_of(lambda: L.parse(s, validate=va, strict=st, simple=si))
+print(json.dumps(got if got[0] != 0 else [0, None if got[1] is None else enc_expr(got[1])]))
+"""
+
+
+def pristine_parse(T, va, st, si, s):
+    """The answer of a freshly built Licensing in a fresh interpreter (nothing else was ever created there)."""
+    import json
+    import os
+    import subprocess
+    import sys
+    here = os.path.dirname(os.path.dirname(os.path.abspath(__file__)))
+    p = subprocess.run([sys.executable, '-c', PRISTINE % here, json.dumps([T, va, st, si, s])],
+                       stdout=subprocess.PIPE, stderr=subprocess.PIPE, timeout=60, env=dict(os.environ))
+    return json.loads(p.stdout.decode())
+
+
+def search(rep, tier, seed):
+    """The correspondence broke without an oracle failure: the fresh instances the oracle compares with
+    live in the same interpreter as the history. Replay every parse of the suspect histories against a
+    fresh Licensing in a fresh interpreter."""
+    le = imp()
+    for h in getattr(rep, 'suspects', [])[:6]:
+        insts, tables = [], []
+        for op in h:
+            if op[0] == 'new':
+                try:
+                    insts.append(make_licensing(op[1]))
+                    tables.append(op[1])
+                except Exception:   # noqa
+                    pass
+            elif op[0] == 'parse' and op[1] < len(insts):
+                _, i, va, st, si, s = op
+                got = outcome_of(lambda: insts[i].parse(s, validate=va, strict=st, simple=si))
+                cg = got if got[0] != 0 else [0, None if got[1] is None else enc_expr(got[1])]
+                want = pristine_parse(tables[i], va, st, si, s)
+                if json_norm(cg) != json_norm(want):
+                    idx = h.index(op)
+                    rep.violations.append({'key': 'history', 'kind': 'history', 'raw': repr(h[:idx + 1]),
+                                           'history': [list(map(repr, o)) for o in h[:idx + 1]], 'text': repr(h[:idx + 1])[:300],
+                                           'what': 'parse(%r) after this history returns %r; a fresh Licensing with the same table '
+                                                   'in a fresh interpreter returns %r' % (s, cg, want), 'pristine': True})
+                    return
+
+
+def json_norm(x):
+    import json
+    return json.loads(json.dumps(x))
+
+
 def replay(payload):
     le = imp()
     ops = eval(payload['raw'])
     err, _, _, _ = run_history(ops, le)
+    if err is None and payload.get('pristine'):
+        insts, tables = [], []
+        for op in ops:
+            if op[0] == 'new':
+                try:
+                    insts.append(make_licensing(op[1]))
+                    tables.append(op[1])
+                except Exception:   # noqa
+                    pass
+            elif op[0] == 'parse' and op[1] < len(insts):
+                _, i, va, st, si, s = op
+                got = outcome_of(lambda: insts[i].parse(s, validate=va, strict=st, simple=si))
+                cg = got if got[0] != 0 else [0, None if got[1] is None else enc_expr(got[1])]
+                want = pristine_parse(tables[i], va, st, si, s)
+                if json_norm(cg) != json_norm(want):
+                    return False, 'parse(%r) returns %r, pristine %r' % (s, cg, want)
     return err is None, err or 'history independent'
